@@ -435,7 +435,7 @@ impl LineProgram {
         // Advance the line, address, and operation index.
         let line_base = i64::from(self.line_encoding.line_base) as u64;
         let line_range = u64::from(self.line_encoding.line_range);
-        let line_advance = self.row.line as i64 - self.prev_row.line as i64;
+        let line_advance = (self.row.line as i64).wrapping_sub(self.prev_row.line as i64);
         let op_advance = self.op_advance();
 
         // Default to special advances of 0.
@@ -460,15 +460,17 @@ impl LineProgram {
 
         if op_advance != 0 {
             // Using ConstAddPc can save a byte.
-            let (special_op_advance, const_add_pc) = if special + op_advance * line_range <= 255 {
+            // Saturate instead of overflowing: a huge advance never fits a special opcode.
+            let fits = |advance: u64| special.saturating_add(advance.saturating_mul(line_range));
+            let (special_op_advance, const_add_pc) = if fits(op_advance) <= 255 {
                 (op_advance, false)
             } else {
                 let op_range = (255 - special_base) / line_range;
-                (op_advance - op_range, true)
+                (op_advance.saturating_sub(op_range), true)
             };
 
-            let special_op = special_op_advance * line_range;
-            if special + special_op <= 255 {
+            let special_op = special_op_advance.saturating_mul(line_range);
+            if special.saturating_add(special_op) <= 255 {
                 special += special_op;
                 use_special = true;
                 if const_add_pc {
